@@ -15,6 +15,7 @@ objects in exactly this form.
   hrnp.parse  <hex>  /  hrnp.mk  <header> <version> <block> <opcode> <src> <dst> <pn> <tuple | NONE>
   hstrp.parse <hex>  /  hstrp.mk <version> <type> <sn> <opts> <tuple | NONE>
   hdap.cksum <hex>, hrnp.cksum <hex>, opts.parse <hex>, type.byte <b>
+  tmp.text b <hex> | tmp.text s <code points, comma separated | ->   -> the octets the TMP constructor stores | ERR UnicodeEncodeError
 -/
 
 namespace Dmr.Driver.Hytera
@@ -238,6 +239,16 @@ def hyteraOp (op : String) (args : List String) : Option String :=
   | "opts.parse", [h] => do
     let d ← rdHex h
     some (resS (fun o => optsS o ++ " " ++ toString (optionsLen o)) (parseOptions d))
+  | "tmp.text", ["b", h] => do
+    let d ← rdHex h
+    match (TextArg.octets d).stored with
+    | some b => some (hx b)
+    | none => some "ERR UnicodeEncodeError"
+  | "tmp.text", ["s", l] => do
+    let cps ← if l == "-" then some [] else (l.splitOn ",").mapM rdNat
+    match (TextArg.str cps).stored with
+    | some b => some (hx b)
+    | none => some "ERR UnicodeEncodeError"
   | "type.byte", [b] => do
     let b ← rdNat b
     let t := PktType.ofByte b
